@@ -2,6 +2,7 @@
 // axi_cns_transient. No doxygen page exists; fields are the forms the property statement names
 // (u vanishing on the axis through the factor cos(a_ur pi r/L) - 1), operators: cylindrical conservation laws.
 #include "ops_flow.hpp"
+#include "roy.hpp"
 namespace orc {
 namespace {
 void point(vh::Rng& r, long double* x, int n) { x[0] = r.uni(0.1L, 3.0L); for (int i = 1; i < n; i++) x[i] = r.uni(-2.0L, 2.0L); }
@@ -76,7 +77,7 @@ void reg_axi() {
   struct { const char* n; const char* p; int na; } L[] = {{"axisymmetric_euler", "C02", 2}, {"axi_euler_transient", "C02", 3},
                                                          {"axisymmetric_navierstokes_compressible", "C03", 2}, {"axi_cns_transient", "C03", 3}};
   for (auto& l : L) {
-    Sol s; s.name = l.n; s.prop = l.p; s.nargs = l.na; s.draw = draw; s.point = point; s.eval = eval; s.stretch = 1;
+    Sol s; s.name = l.n; s.prop = l.p; s.nargs = l.na; s.draw = draw; s.point = point; s.eval = eval; s.stretch = 1; s.nodal = roy_nodal;
     s.zero_coord_from = 1;   // r > 0; z and t may be exactly 0
     s.special_ok = [](const std::string& n) {
       if (n.rfind("a_", 0) == 0 || n == "k" || n == "mu" || n == "w_0") return 2;
